@@ -32,6 +32,7 @@ theorem addNegation_flagsOk {t : Tree} (pre : DMPre t) : ∀ (fuel nodeId : Nat)
   | succ fuel ih =>
     intro nodeId fl fl' hp h
     unfold addNegationForOperands at h
+    rw [dealiased_eq pre] at h
     cases hg : t.get nodeId with
     | joined op operands =>
       rw [hg] at h
